@@ -8,6 +8,9 @@ import (
 	"bytes"
 	"fmt"
 	"os"
+	"runtime"
+	"sync"
+	"sync/atomic"
 	"testing"
 
 	"pgregory.net/rapid"
@@ -324,4 +327,205 @@ func FuzzVerifC18Frame(f *testing.F) {
 			}
 		}
 	})
+}
+
+// ---------------------------------------------------------------------------
+// Concurrent dimension. The frame codecs are pure functions of their argument,
+// and the tubes call them from many goroutines of one process at the same
+// moment (every reliable tube's send loop and retransmission timer, unreliable
+// tubes' Write, keep-alive / FIN / RTR paths, the muxer's receiver). 2..8
+// goroutines each own 1..4 generated frames; behind a common start barrier each
+// encodes and decodes ITS OWN frames in a loop. Every decoded frame must equal
+// the goroutine's own frame. A deviating frame is encoded and decoded once more
+// alone to tell a sequential defect from interference between encoders.
+// ---------------------------------------------------------------------------
+
+type c18ConcCase struct {
+	Workers [][]c18Frame `json:"workers"` // frames owned by each goroutine
+	Iters   int          `json:"iters"`   // passes over its frames per goroutine
+}
+
+// c18ConcItem is one frame prepared before the barrier: only real codec calls
+// and comparisons run between the barrier and the end.
+type c18ConcItem struct {
+	c    c18Frame
+	f    *frame
+	ini  *initiateFrame
+	data []byte
+}
+
+func c18ConcPrepare(c c18Frame) c18ConcItem {
+	data := vlib.Fill(c.Seed, c.Len)
+	it := c18ConcItem{c: c, data: data}
+	if c.Init {
+		it.ini = &initiateFrame{frameNo: c.FrameNo, tubeID: byte(c.TubeID), tubeType: TubeType(c.Type), data: data, dataLength: uint16(len(data)), flags: c18Flags(c.Flags)}
+	} else {
+		it.f = &frame{ackNo: c.Ack, frameNo: c.FrameNo, dataLength: uint16(len(data)), flags: c18Flags(c.Flags), tubeID: byte(c.TubeID), data: data}
+	}
+	return it
+}
+
+// c18ConcOnce encodes and decodes the item once; returns "" or the name of the
+// first field that differs (or "decode-error") and a description.
+func c18ConcOnce(it *c18ConcItem) (string, string) {
+	if it.ini != nil {
+		f := it.ini
+		g := fromInitiateBytes(f.toBytes())
+		field := ""
+		switch {
+		case g.tubeID != f.tubeID:
+			field = "tubeID"
+		case g.flags != f.flags:
+			field = "flags"
+		case g.tubeType != f.tubeType:
+			field = "tubeType"
+		case g.frameNo != f.frameNo:
+			field = "frameNo"
+		case g.dataLength != f.dataLength:
+			field = "dataLength"
+		case !bytes.Equal(g.data, f.data):
+			field = "data"
+		}
+		if field == "" {
+			return "", ""
+		}
+		return field, fmt.Sprintf("sent %+v, decoded id=%d flags=%+v type=%d no=%d dataLength=%d (%d data bytes)", it.c, g.tubeID, g.flags, g.tubeType, g.frameNo, g.dataLength, len(g.data))
+	}
+	f := it.f
+	g, err := fromBytes(f.toBytes())
+	if err != nil {
+		return "decode-error", fmt.Sprintf("sent %+v, fromBytes: %v", it.c, err)
+	}
+	field := ""
+	switch {
+	case g.tubeID != f.tubeID:
+		field = "tubeID"
+	case g.flags != f.flags:
+		field = "flags"
+	case g.ackNo != f.ackNo:
+		field = "ackNo"
+	case g.frameNo != f.frameNo:
+		field = "frameNo"
+	case g.dataLength != f.dataLength:
+		field = "dataLength"
+	case !bytes.Equal(g.data, f.data):
+		field = "data"
+	}
+	if field == "" {
+		return "", ""
+	}
+	return field, "sent " + fmt.Sprintf("%+v", it.c) + ", decoded " + c18FrameStr(g)
+}
+
+func c18ConcKind(it *c18ConcItem) string {
+	if it.ini != nil {
+		return "tubes.initiateFrame"
+	}
+	return "tubes.frame"
+}
+
+func c18ConcRun(c c18ConcCase, v *vlib.Verdict) {
+	n := len(c.Workers)
+	iters := c.Iters
+	if iters < 1 {
+		iters = 1
+	}
+	items := make([][]c18ConcItem, n)
+	for i := range c.Workers {
+		for _, fc := range c.Workers[i] {
+			items[i] = append(items[i], c18ConcPrepare(fc))
+		}
+	}
+	type deviation struct {
+		item, iter  int
+		field, what string
+	}
+	devs := make([]*deviation, n)
+	verdicts := make([]vlib.Verdict, n)
+	var arrived atomic.Int32
+	var wg sync.WaitGroup
+	for i := 0; i < n; i++ {
+		wg.Add(1)
+		go func(i int) {
+			defer wg.Done()
+			vlib.Guard(&verdicts[i], func() {
+				arrived.Add(1)
+				for int(arrived.Load()) < n { // start barrier
+					runtime.Gosched()
+				}
+				for r := 0; r < iters; r++ {
+					for k := range items[i] {
+						if field, what := c18ConcOnce(&items[i][k]); field != "" {
+							devs[i] = &deviation{item: k, iter: r, field: field, what: what}
+							return
+						}
+					}
+				}
+			})
+		}(i)
+	}
+	wg.Wait()
+	for i := 0; i < n; i++ {
+		if !verdicts[i].OK() { // a panic in goroutine i
+			v.Violations = append(v.Violations, verdicts[i].Violations...)
+			return
+		}
+	}
+	for i := 0; i < n; i++ {
+		d := devs[i]
+		if d == nil {
+			continue
+		}
+		it := &items[i][d.item]
+		var sfield, swhat string
+		if vlib.Guard(v, func() { sfield, swhat = c18ConcOnce(it) }) {
+			return
+		}
+		if sfield != "" {
+			v.Failf("C18:roundtrip-mismatch:"+c18ConcKind(it)+":"+sfield, "frame %d of goroutine %d also fails when encoded alone: %s", d.item, i, swhat)
+			return
+		}
+		v.Failf("C18:concurrent-encoders-interfere:"+c18ConcKind(it)+":"+d.field, "goroutine %d of %d, pass %d, its frame %d: the round trip deviates only while other goroutines encode frames of their own: %s", i, n, d.iter, d.item, d.what)
+		return
+	}
+	kinds := map[bool]bool{}
+	ids := map[int]bool{}
+	for i := range c.Workers {
+		for _, fc := range c.Workers[i] {
+			kinds[fc.Init] = true
+			ids[fc.TubeID] = true
+		}
+	}
+	v.NonTrivial = n >= 2 && len(ids) >= 2
+	v.Labelf("goroutines:%d", n)
+	if kinds[true] && kinds[false] {
+		v.Label("data-and-initiate-frames-together")
+	}
+}
+
+func c18ConcGen(t *rapid.T) c18ConcCase {
+	n := rapid.IntRange(2, 8).Draw(t, "goroutines")
+	c := c18ConcCase{Iters: rapid.SampledFrom([]int{100, 400, 1500}).Draw(t, "iters")}
+	for i := 0; i < n; i++ {
+		k := rapid.IntRange(1, 4).Draw(t, "frames")
+		fs := make([]c18Frame, k)
+		for j := range fs {
+			fs[j] = c18FrameGen(t)
+			// mostly small frames (the header work dominates, as for acks, keep-alives and interactive traffic); the
+			// lengths of c18FrameGen (limits, up to the maximum) one time in four
+			if rapid.IntRange(0, 3).Draw(t, "small") != 0 {
+				fs[j].Len = rapid.IntRange(0, 48).Draw(t, "lconc")
+			}
+		}
+		c.Workers = append(c.Workers, fs)
+	}
+	return c
+}
+
+func TestVerifC18FrameConcurrent(t *testing.T) {
+	quick := 800
+	if c18Race {
+		quick = 240
+	}
+	vlib.Drive(t, vlib.Spec[c18ConcCase]{ID: "C18", Quick: quick, Gen: c18ConcGen, Run: c18ConcRun})
 }
